@@ -48,10 +48,10 @@ type image struct {
 
 // hdrInfo is an independent parse of a header sector (enough to evaluate the trigger predicate and the CRC oracle).
 type hdrInfo struct {
-	valid            bool
-	my, arrLBA       uint64
-	count, entSize   uint32
-	arrCRC           uint32
+	valid          bool
+	my, arrLBA     uint64
+	count, entSize uint32
+	arrCRC         uint32
 }
 
 func parseHdr(sec []byte) hdrInfo {
@@ -469,10 +469,13 @@ func Run(c *hx.Ctx) {
 		}
 	}
 	// ---- seeded random images
-	nr := c.N(700, 200000)
+	nr := c.N(700, 20000)
 	for k := 0; k < nr; k++ {
-		lss := hx.Pick(rng, []int{512, 512, 4096})
-		size := int64(2+rng.Intn(40)) * int64(lss)
+		lss := hx.Pick(rng, []int{512, 512, 512, 512, 4096})
+		size := int64(2+rng.Intn(24)) * int64(lss)
+		if lss == 4096 {
+			size = int64(2+rng.Intn(4)) * int64(lss)
+		}
 		if rng.Chance(10) {
 			size += int64(rng.Intn(lss))
 		}
